@@ -139,3 +139,42 @@ def runner_paths(prog, name: str):
 def is_loop_var(t) -> bool:
     """the variable of a `for` loop (any name): ('fresh', <iter node>, <name>)"""
     return isinstance(t, tuple) and len(t) == 3 and t[0] == "fresh"
+
+
+def _known_funcs() -> set[str] | None:
+    import os
+
+    path = os.path.join(os.path.dirname(os.path.dirname(os.path.abspath(__file__))), "known_funcs.txt")
+    try:
+        with open(path) as fh:
+            return {ln.strip() for ln in fh if ln.strip()}
+    except OSError:
+        return None
+
+
+def callers_of(prog: Program, fi) -> list:
+    """functions with a call site that resolves to `fi`"""
+    out = []
+    for caller, call in prog._call_sites_by_name().get(fi.name, []):
+        try:
+            tg = prog.resolve_call(call, caller)
+        except AnalysisError:
+            continue
+        if any(t.func is fi for t in tg):
+            out.append(caller)
+    return out
+
+
+def owned_by(prog: Program, fn, allowed, _seen: frozenset = frozenset()) -> bool:
+    """who-may rule with helper extraction in mind: `fn` is one of the allowed functions, or it is a
+    helper that did not exist when the rules were written (not in known_funcs.txt, hence inlined by
+    the path engine into its callers, whose path rules then cover its body) and *every* call site
+    of it sits in a function that is itself owned by the allowed set."""
+    allowed = (allowed,) if isinstance(allowed, str) else tuple(allowed)
+    if fn.qual in allowed:
+        return True
+    known = _known_funcs()
+    if known is None or fn.qual in known or fn.qual in _seen:
+        return False
+    cs = callers_of(prog, fn)
+    return bool(cs) and all(owned_by(prog, c, allowed, _seen | {fn.qual}) for c in cs)
